@@ -555,7 +555,7 @@ impl Story {
                             let list_item_index = (next_random as usize) % list.items.len(); // Iterate through to get the random element, sorted for
                             // predictibility
                             let mut sorted: Vec<(&InkListItem, &i32)> = list.items.iter().collect();
-                            sorted.sort_by(|a, b| b.1.cmp(a.1));
+                            sorted.sort_by(|a, b| InkList::item_order(*b, *a));
                             let random_item = sorted[list_item_index]; // Origin list is simply the origin of the one element
                             let mut new_list = InkList::from_single_origin(
                                 random_item.0.get_origin_name().unwrap().clone(),
